@@ -504,6 +504,20 @@ pub fn replay(behaviours: &str, k: usize, random_maps: usize, trace: &mut Ndjson
         let three: Findings = three.into_iter().filter(|(p, _)| seen.insert(p.clone())).collect();
         cases.push((cat.to_string(), three));
     }
+    // files whose names are equal under some normalisation (leading zeros of a number, letter case, composed /
+    // decomposed accents, `-` / `_`, a trailing dot): different files all the same, each listed under its own name
+    let lookalikes = ["Vault1.sol", "Vault01.sol", "Vault001.sol", "Vault10.sol", "Vault2.sol", "token.sol", "Token.sol", "TOKEN.sol",
+                      "caf\u{e9}.sol", "cafe\u{301}.sol", "A-b.sol", "A_b.sol", "A b.sol", "x.sol", "x.sol.", "x..sol", "X.SOL"];
+    for cat in CATS {
+        let ps = patterns_of(cat);
+        for (pi, p) in ps.iter().enumerate().take(2) {
+            let files: Vec<(String, Vec<i32>)> = lookalikes.iter().enumerate().map(|(i, n)| (n.to_string(), vec![(i * 3 + pi + 1) as i32, (40 + i) as i32])).collect();
+            cases.push((cat.to_string(), vec![(p.clone(), files)]));
+        }
+        // ... and the same line sets in all of them (nothing but the name tells them apart)
+        let same: Vec<(String, Vec<i32>)> = lookalikes.iter().map(|n| (n.to_string(), vec![1, 7])).collect();
+        cases.push((cat.to_string(), vec![(ps[ps.len() - 1].clone(), same)]));
+    }
     for (ci, (cat, f)) in cases.iter().enumerate() {
         run_case(ci, cat, f, k, &reader, &mut rng, trace, out);
     }
